@@ -85,7 +85,7 @@ def main():
                 return 2
         results = {}
         for p in props:
-            env = dict(os.environ, VERIF_REPO=wt, VERIF_SEED=a.seed)
+            env = dict(os.environ, VERIF_REPO=wt, VERIF_SEED=a.seed, VERIF_CORES=os.environ.get("VERIF_CORES", "6"))
             t0 = time.time()
             rc, out = sh([os.path.join(VERIF, "bin", "check"), "--property", p, "--tier", a.tier], VERIF, env=env, timeout=7200)
             lines = [l for l in out.splitlines() if l.startswith(("VIOLATION", "OK ", "INFRA", "  violation", "KNOWN"))]
